@@ -211,7 +211,7 @@ func downstream(cmds []ast.Command, comments []*ast.Comment, r wproto.Req, resp 
 	}
 	for _, c := range cmds {
 		for i := int(r.Lo); i < int(r.Hi) && i < 256; i++ {
-			cfg := config(i)
+			cfg := config(i | int(r.Width)<<8)
 			var b bytes.Buffer
 			if err := cfg.Fprint(&b, c); err != nil {
 				resp.Note = "Fprint: " + err.Error()
@@ -267,7 +267,8 @@ func config(i int) printer.Config {
 		c.Indent = printer.Space
 	}
 	if bit(1) {
-		c.Width = 2
+		// bits 8 and up select another width
+		c.Width = []int{2, 1, 4, 8, 16, 33}[(i>>8)%6]
 	}
 	c.Redir = printer.After
 	if bit(2) {
